@@ -18,6 +18,18 @@ META = {
 }
 
 
+def observed_top_tie():
+    """was the last stored step a one-by-one STV round whose top tally group (at/above quota) has >= 2 members?"""
+    last = rules.LAST_STEP[0]
+    if not last:
+        return False
+    obj, prev = last
+    if not hasattr(obj, "threshold") or getattr(obj, "simultaneous", True) or not prev.scores:
+        return False
+    top = max(prev.scores.values())
+    return top >= obj.threshold and sum(1 for v in prev.scores.values() if v == top) >= 2
+
+
 def check_outcome(ctx, case, out, r, cands, ballots):
     cfg = case["cfg"]
     rule = cfg["rule"]
@@ -33,6 +45,11 @@ def check_outcome(ctx, case, out, r, cands, ballots):
         ctx.count("exc_" + et)
         if et == "ValueError":
             allowed, required, why = oracle.valueerror_policy(cfg, cands, ballots)
+            if not allowed and cfg.get("tiebreak") is None and observed_top_tie():
+                # decided on the observed tallies of the round that raised (the reference cannot predict a
+                # random-transfer count): a tie for first among candidates at/above quota in one-by-one mode
+                allowed = True
+                ctx.count("valueerror_allowed_by_observed_tie")
             if allowed:
                 ctx.count("valueerror_allowed_seen")
                 if required:
@@ -109,6 +126,7 @@ def check_case(ctx, case, max_runs):
     ctx.count("tag_" + case.get("tag", "?"))
     ctx.count("rule_" + cfg["rule"])
     script0 = case.get("script")
+    rules.LAST_STEP[0] = None
     if script0 is not None:
         r = rng.Rng("script", script=script0)
         with r:
